@@ -172,6 +172,53 @@ theorem keyless_merge_spec (b l r : Nat) :
     subst h2
     simp [h1]
 
+/-- the fold of `mergeKeyless` over any list of row identities -/
+def foldMerge (base left right : KRows) (rs : List Row) : KMerged :=
+  rs.foldr (fun (row : Row) (acc : KMerged) =>
+    let b := card base row
+    let l := card left row
+    let r := card right row
+    let (c, conf, op) := mergeCard b l r
+    { rows := if c = 0 then acc.rows else (row, c) :: acc.rows
+      conflicts := if conf then ⟨row, b, l, r⟩ :: acc.conflicts else acc.conflicts
+      stats := statOf op acc.stats }) ⟨[], [], {}⟩
+
+theorem foldMerge_card (base left right : KRows) (rs : List Row) (row : Row) :
+    card (foldMerge base left right rs).rows row =
+      if row ∈ rs then (mergeCard (card base row) (card left row) (card right row)).1 else 0 := by
+  induction rs with
+  | nil => simp [foldMerge, card]
+  | cons x xs ih =>
+    simp only [foldMerge, List.foldr_cons] at ih ⊢
+    by_cases hx : x = row
+    · subst hx
+      by_cases hc : (mergeCard (card base x) (card left x) (card right x)).1 = 0
+      · simp only [hc, if_true, ih, List.mem_cons, true_or]
+        split <;> simp [hc]
+      · simp [hc, card]
+    · have hx' : ¬ row = x := fun e => hx e.symm
+      by_cases hc : (mergeCard (card base x) (card left x) (card right x)).1 = 0
+      · simp [hc, ih, hx']
+      · simp [hc, card, hx, ih, hx']
+
+/-- **keyless_merge_spec (table level)**: for every row identity, the merged table holds exactly
+the multiplicity `mergeCard` prescribes from the three input multiplicities -/
+theorem mergeKeyless_card (base left right : KRows) (row : Row) :
+    card (mergeKeyless base left right).rows row =
+      (mergeCard (card base row) (card left row) (card right row)).1 := by
+  have h := foldMerge_card base left right (allRows base left right) row
+  have e : (mergeKeyless base left right).rows = (foldMerge base left right (allRows base left right)).rows := rfl
+  rw [e, h]
+  by_cases hm : row ∈ allRows base left right
+  · simp [hm]
+  · have nb : card base row = 0 := card_eq_zero_of_not_mem base row (fun hb => hm (by
+      simp only [allRows, List.mem_eraseDups, List.map_append, List.mem_append]; exact Or.inl (Or.inl hb)))
+    have nl : card left row = 0 := card_eq_zero_of_not_mem left row (fun hb => hm (by
+      simp only [allRows, List.mem_eraseDups, List.map_append, List.mem_append]; exact Or.inl (Or.inr hb)))
+    have nr : card right row = 0 := card_eq_zero_of_not_mem right row (fun hb => hm (by
+      simp only [allRows, List.mem_eraseDups, List.map_append, List.mem_append]; exact Or.inr hb))
+    simp [hm, nb, nl, nr, mergeCard]
+
 /-- the row counters of a keyless merge follow the same ops as the keyed row path -/
 theorem mergeCard_op (b l r : Nat) (h : l = b) (hr : r ≠ b) :
     (mergeCard b l r).2.2 = (if b = 0 then .rightAdd else if r = 0 then .rightDelete else .rightModify) := by
